@@ -1056,7 +1056,8 @@ pub fn run_grammar(g: &AG, name: &str, wd: &Workdir, rep: &mut Rep, prop: &str, 
         for _ in 0..24 {
             let budget = rng.range(0, l + 6);
             if let Some(mut w) = random_sentence(g, rng, budget) {
-                if w.len() > 30 {
+                // ambiguous grammars (C03): short inputs only, forests grow fast
+                if w.len() > (if prop == "C03" { 10 } else { 30 }) {
                     continue;
                 }
                 if rng.chance(0.4) && !w.is_empty() {
